@@ -79,6 +79,13 @@ class HandlerEval:
             return r if isinstance(e.ops[0], ast.In) else not r
         if isinstance(e, ast.UnaryOp) and isinstance(e.op, ast.Not):
             return not self.ev(e.operand, env)
+        if isinstance(e, ast.BinOp) and isinstance(e.op, (ast.BitAnd, ast.Mod)):
+            # a length reduced to one octet (`len(v) & 0xFF`, `len(v) % 256`) is still "the length of v" for the coverage
+            # argument: which attribute's length and octets enter the signed stream, in which order
+            l, r = self.ev(e.left, env), self.ev(e.right, env)
+            for a, b in ((l, r), (r, l)):
+                if isinstance(a, tuple) and a and a[0] == "len" and isinstance(b, int) and ((isinstance(e.op, ast.BitAnd) and b == 0xFF) or (isinstance(e.op, ast.Mod) and b == 256 and a is l)):
+                    return a
         raise AnalysisError(f"KeyringSAXContentHandler: expression {type(e).__name__} outside the fragment")
 
     def block(self, stmts, env: dict, trace: list) -> None:
@@ -324,5 +331,20 @@ def run(chk: Check, repo: Repo) -> None:
         bad = sorted(decs & memo) if reads_files(f) else []  # memoising a pure helper (eg. a key derivation) changes nothing
         chk.ob("verification-depends-on-the-current-content-only", f.site(), not bad and not glob and not mutable_default, f"{f.qualname}: decorators {sorted(decs) or 'none'}" + (f" - memoised by {bad}: a later call does not look at the file again" if bad else "") + (f"; writes outer state ({[ast.unparse(g) for g in glob]})" if glob else "") + (f"; mutable default {mutable_default}" if mutable_default else ""), key=f"pure|{f.qualname}")
     chk.floor("keyring module functions checked for memoisation", nfun, 20)
+    # the signature input is built octet by octet: what is appended to it as a single octet has to be an octet for every
+    # keyring content (a length taken from the file is not) - else verification of a correctly signed file raises
+    hcls = repo.cls("xknx.secure.keyring", "KeyringSAXContentHandler")
+    n_app = 0
+    for mname, m in sorted(hcls.methods.items()):
+        for c in calls(m.node):
+            if call_name(c) == "self.output.append" and len(c.args) == 1:
+                n_app += 1
+                a = c.args[0]
+                k = repo.fold(a, m.module, hcls)
+                ok = (isinstance(k, int) and not isinstance(k, bool) and 0 <= k <= 255) or \
+                     (isinstance(a, ast.BinOp) and isinstance(a.op, ast.BitAnd) and any(isinstance(repo.fold(x, m.module, hcls), int) and 0 <= repo.fold(x, m.module, hcls) <= 255 for x in (a.left, a.right))) or \
+                     (isinstance(a, ast.BinOp) and isinstance(a.op, ast.Mod) and isinstance(repo.fold(a.right, m.module, hcls), int) and 0 < repo.fold(a.right, m.module, hcls) <= 256)
+                chk.ob("signature-input-octets-are-octets", m.site(c), ok, f"{m.qualname}: output.append({ast.unparse(a)})" + ("" if ok else " is not bounded to 0..255 - a long attribute value makes signature verification raise ValueError"), key=f"octet|{m.qualname}|{ast.unparse(a)}")
+    chk.floor("single-octet appends to the signature input", n_app, 3)
     chk.rule("structural def-use rules over the SAX content handler (signature coverage), the verification and load functions (ordering) and the decrypt_attributes methods (ciphertext-to-field flow); ownership census of the signed buffer and of the decrypted fields")
     chk.assume("SHA-256 collision resistance; xml.sax reports every element and attribute it parses; AES-CBC / PBKDF2 are the cryptography package's")
